@@ -33,6 +33,12 @@ void unlock_contract(myth_spinlock_t * l)
   __CPROVER_requires(l == &Q.lock && g_lock_held == 1)
   __CPROVER_assigns(g_lock_held, g_unlocks)
   __CPROVER_ensures(g_lock_held == 0 && g_unlocks == __CPROVER_old(g_unlocks) + 1);
+/* should the steal path take the lock with the blocking primitive (e.g. to re-acquire it after a callback) */
+void relock_contract(myth_spinlock_t * l)
+  __CPROVER_requires(l == &Q.lock && g_lock_held == 0)
+  __CPROVER_assigns(g_lock_held)
+  __CPROVER_ensures(g_lock_held == 1);
+void (*keep_lock_lock_wsapi)(myth_spinlock_t *) = myth_wsqueue_lock_lock;
 static int verif_decide(myth_thread_t th, void * udata) {
   __CPROVER_assert(g_lock_held == 1, "wsapi take: the candidate is shown to the decision callback while the queue is locked (it cannot be taken by anybody else meanwhile)");
   g_decide_calls++; g_decide_arg = th; g_decide_udata = udata;
